@@ -223,9 +223,9 @@ def AlmConv (P : ALMParams α) (st : SolverStatus) (ε : α) (err : Vec α) : Pr
   ε ≤ P.tolerance ∧ st = .Converged ∧ normInf err ≤ P.dual_tolerance
 
 theorem almIter_cont {P : ALMParams α} {accAdd : A → S → A} {m i : Nat} {has : Bool} {Sg : Vec α}
-    {ooi oot : Bool} {st : SolverStatus} {ε : α} {ps : S} {Sc err eo : Vec α} {ne neo : α}
+    {ooi oot sr : Bool} {st : SolverStatus} {ε : α} {ps : S} {Sc err eo : Vec α} {ne neo : α}
     {s : ALMStats α A} {eps : α} {st' : LoopState α A}
-    (h : almIter P accAdd m i has Sg ooi oot st ε ps Sc err eo ne neo s eps = .cont st') :
+    (h : almIter P accAdd m i has Sg ooi oot sr st ε ps Sc err eo ne neo s eps = .cont st') :
     st ≠ .Interrupted ∧ ooi = false ∧ oot = false ∧ ¬ AlmConv P st ε err ∧
     st' = ⟨updatePenaltyWeights P P.penalty_update_factor (i == 0) err eo (normInf err) neo Sc,
            eo, err, normInf err, normInf err,
@@ -238,12 +238,24 @@ theorem almIter_cont {P : ALMParams α} {accAdd : A → S → A} {m i : Nat} {ha
   · simp only [Bool.or_eq_true, Bool.and_eq_true, decide_eq_true_eq, beq_iff_eq, not_or, not_and] at h1 h2
     injection h with h
     refine ⟨by simpa using h1, by simpa using h2.1.2, by simpa using h2.2, ?_, h.symm⟩
-    intro hc; exact absurd hc.2.2 (h2.1.1 ⟨hc.1, hc.2.1⟩)
+    intro hc; exact absurd hc.2.2 (h2.1.1.1 ⟨hc.1, hc.2.1⟩)
+
+/-- A pass falls through to the next iteration only if ALM's stop flag was not visible. -/
+theorem almIter_cont_stop {P : ALMParams α} {accAdd : A → S → A} {m i : Nat} {has : Bool} {Sg : Vec α}
+    {ooi oot sr : Bool} {st : SolverStatus} {ε : α} {ps : S} {Sc err eo : Vec α} {ne neo : α}
+    {s : ALMStats α A} {eps : α} {st' : LoopState α A}
+    (h : almIter P accAdd m i has Sg ooi oot sr st ε ps Sc err eo ne neo s eps = .cont st') :
+    sr = false := by
+  unfold almIter at h
+  simp only [] at h
+  split_ifs at h with h1 h2
+  · simp only [Bool.or_eq_true, not_or] at h2
+    simpa using h2.1.1.2
 
 theorem almIter_done {P : ALMParams α} {accAdd : A → S → A} {m i : Nat} {has : Bool} {Sg : Vec α}
-    {ooi oot : Bool} {st : SolverStatus} {ε : α} {ps : S} {Sc err eo : Vec α} {ne neo : α}
+    {ooi oot sr : Bool} {st : SolverStatus} {ε : α} {ps : S} {Sc err eo : Vec α} {ne neo : α}
     {s : ALMStats α A} {eps : α} {s' : ALMStats α A} {Sg' : Vec α}
-    (h : almIter P accAdd m i has Sg ooi oot st ε ps Sc err eo ne neo s eps = .done s' Sg') :
+    (h : almIter P accAdd m i has Sg ooi oot sr st ε ps Sc err eo ne neo s eps = .done s' Sg') :
     s'.eps = ε ∧ s'.delta = normInf err ∧ s'.outer_iterations = i + 1 ∧
     s'.inner = accAdd s.inner ps ∧
     s'.inner_convergence_failures = s.inner_convergence_failures + b2n (!(st == .Converged)) ∧
@@ -252,8 +264,9 @@ theorem almIter_done {P : ALMParams α} {accAdd : A → S → A} {m i : Nat} {ha
     (st = .Interrupted → s'.status = .Interrupted) ∧
     (st ≠ .Interrupted →
       (AlmConv P st ε err → s'.status = .Converged) ∧
-      (¬ AlmConv P st ε err → oot = true → s'.status = .MaxTime) ∧
-      (¬ AlmConv P st ε err → oot = false → ooi = true ∧ s'.status = .MaxIter)) := by
+      (¬ AlmConv P st ε err → sr = true → s'.status = .Interrupted) ∧
+      (¬ AlmConv P st ε err → sr = false → oot = true → s'.status = .MaxTime) ∧
+      (¬ AlmConv P st ε err → sr = false → oot = false → ooi = true ∧ s'.status = .MaxIter)) := by
   unfold almIter at h
   simp only [] at h
   unfold AlmConv
@@ -270,31 +283,31 @@ theorem almIter_done {P : ALMParams α} {accAdd : A → S → A} {m i : Nat} {ha
       injection h with h h'
       subst h h'
       simp only [Bool.or_eq_true, Bool.and_eq_true, decide_eq_true_eq, beq_iff_eq] at h2
-      refine ⟨rfl, rfl, rfl, rfl, rfl, rfl, rfl, fun hi => absurd hi h1, fun _ => ⟨?_, ?_, ?_⟩⟩
+      have hcb : ¬ (ε ≤ P.tolerance ∧ st = .Converged ∧ normInf err ≤ P.dual_tolerance) →
+          (decide (ε ≤ P.tolerance) && (st == SolverStatus.Converged) &&
+            decide (normInf err ≤ P.dual_tolerance)) = false := by
+        intro hc
+        rw [Bool.eq_false_iff]; intro hh
+        simp only [Bool.and_eq_true, decide_eq_true_eq, beq_iff_eq] at hh
+        exact hc ⟨hh.1.1, hh.1.2, hh.2⟩
+      refine ⟨rfl, rfl, rfl, rfl, rfl, rfl, rfl, fun hi => absurd hi h1, fun _ => ⟨?_, ?_, ?_, ?_⟩⟩
       · intro hc
         have : (decide (ε ≤ P.tolerance) && (st == SolverStatus.Converged) &&
             decide (normInf err ≤ P.dual_tolerance)) = true := by
           simp only [Bool.and_eq_true, decide_eq_true_eq, beq_iff_eq]; exact ⟨⟨hc.1, hc.2.1⟩, hc.2.2⟩
         simp only [this, if_true]
-      · intro hc ho
-        have : (decide (ε ≤ P.tolerance) && (st == SolverStatus.Converged) &&
-            decide (normInf err ≤ P.dual_tolerance)) = false := by
-          rw [Bool.eq_false_iff]; intro hh
-          simp only [Bool.and_eq_true, decide_eq_true_eq, beq_iff_eq] at hh
-          exact hc ⟨hh.1.1, hh.1.2, hh.2⟩
-        simp only [this, ho, if_true, Bool.false_eq_true, if_false]
-      · intro hc ho
-        have hcb : (decide (ε ≤ P.tolerance) && (st == SolverStatus.Converged) &&
-            decide (normInf err ≤ P.dual_tolerance)) = false := by
-          rw [Bool.eq_false_iff]; intro hh
-          simp only [Bool.and_eq_true, decide_eq_true_eq, beq_iff_eq] at hh
-          exact hc ⟨hh.1.1, hh.1.2, hh.2⟩
+      · intro hc hs
+        simp only [hcb hc, hs, if_true, Bool.false_eq_true, if_false]
+      · intro hc hs ho
+        simp only [hcb hc, hs, ho, if_true, Bool.false_eq_true, if_false]
+      · intro hc hs ho
         have hooi : ooi = true := by
-          rcases h2 with (⟨⟨a, b⟩, c⟩ | h2) | h2
+          rcases h2 with ((⟨⟨a, b⟩, c⟩ | h2) | h2) | h2
           · exact absurd ⟨a, b, c⟩ hc
+          · rw [hs] at h2; cases h2
           · exact h2
           · rw [ho] at h2; cases h2
-        exact ⟨hooi, by simp only [hcb, ho, hooi, if_true, Bool.false_eq_true, if_false]⟩
+        exact ⟨hooi, by simp only [hcb hc, hs, ho, hooi, if_true, Bool.false_eq_true, if_false]⟩
     next h2 => cases h
 
 /-! ### The loop skeleton: structural lemmas (any carrier) -/
@@ -375,6 +388,11 @@ theorem step_cont {i : Nat} {st st' : LoopState α A} {x y : Vec α}
   simp only [almPreCall] at h2
   intro hh; rw [hh] at h2; simp at h2
 
+/-- A pass falls through only if ALM's own stop flag was not visible after the inner solve. -/
+theorem step_cont_stop {i : Nat} {st st' : LoopState α A} {x y : Vec α}
+    (h : (STEP i st x y).out = .cont st') : (STEP i st x y).res.stopSeen = false :=
+  almIter_cont_stop (P := P) (ne := st.norm_e) h
+
 /-- A pass that returns. -/
 theorem step_done {i : Nat} {st : LoopState α A} {x y : Vec α} {s' : ALMStats α A} {Sg' : Vec α}
     (h : (STEP i st x y).out = .done s' Sg') :
@@ -390,15 +408,19 @@ theorem step_done {i : Nat} {st : LoopState α A} {x y : Vec α} {s' : ALMStats 
       (AlmConv P (STEP i st x y).res.status (STEP i st x y).res.eps (STEP i st x y).res.errz →
         s'.status = .Converged) ∧
       (¬ AlmConv P (STEP i st x y).res.status (STEP i st x y).res.eps (STEP i st x y).res.errz →
+        (STEP i st x y).res.stopSeen = true → s'.status = .Interrupted) ∧
+      (¬ AlmConv P (STEP i st x y).res.status (STEP i st x y).res.eps (STEP i st x y).res.errz →
+        (STEP i st x y).res.stopSeen = false →
         (STEP i st x y).res.outOfTime = true → s'.status = .MaxTime) ∧
       (¬ AlmConv P (STEP i st x y).res.status (STEP i st x y).res.eps (STEP i st x y).res.errz →
+        (STEP i st x y).res.stopSeen = false →
         (STEP i st x y).res.outOfTime = false → i + 1 = P.max_iter ∧ s'.status = .MaxIter)) := by
   have := almIter_done (P := P) (ne := st.norm_e) h
   refine ⟨this.1, this.2.1, this.2.2.1, this.2.2.2.1, this.2.2.2.2.1, this.2.2.2.2.2.1,
     this.2.2.2.2.2.2.1, this.2.2.2.2.2.2.2.1, fun hn => ?_⟩
   have h3 := this.2.2.2.2.2.2.2.2 hn
-  refine ⟨h3.1, h3.2.1, fun hc ho => ?_⟩
-  have h4 := h3.2.2 hc ho
+  refine ⟨h3.1, h3.2.1, h3.2.2.1, fun hc hs ho => ?_⟩
+  have h4 := h3.2.2.2 hc hs ho
   refine ⟨?_, h4.2⟩
   have h5 := h4.1
   simp only [almPreCall] at h5
